@@ -204,6 +204,7 @@ def r25b(ctx, P):
         f = P.fn("searchlite_cli::" + fname) or P.fn("bin:searchlite_cli::" + fname)
         if not ctx.anchor(rid, f, "searchlite_cli::" + fname):
             continue
+        f = P.inlined(f.path, depth=1) or f         # a per-clause helper is read in place
         ctx.saw(f)
         pairs = []
         for b, t in f.calls():
@@ -269,6 +270,8 @@ def r25c(ctx, P):
     for q, f in sorted(P.fns.items()):
         if f.crate not in fronts or is_test_or_bench(f):
             continue
+        if f.kind != "closure":
+            f = P.inlined(q, depth=1, small=60) or f      # a per-element helper building the value is read inside the caller's loop
         loops = None
         defs = None
         for b, i, st in f.stmts():
